@@ -442,6 +442,21 @@ Proof.
   split; [exact G|]. unfold list_parse. rewrite G. f_equal. apply parse_seg, valid_seg_ok. exact Hn.
 Qed.
 
+(* the path Client.list yields for that entry, for EVERY listed path dir (relative or absolute, any
+   depth -- in particular a directory that carries the entry's own name): dir / name *)
+Theorem list_entry_path_partial (mode nlink size mtime name : text) t m' dir :
+  mode = t :: m' -> length m' = 9%nat -> (t =? 108) = false -> nows mode ->
+  digits nlink -> digits size ->
+  length mtime = 12%nat -> (exists c r, mtime = c :: r /\ is_space c = false) ->
+  valid_name name -> lstrip name = name ->
+  option_map (lister_join dir) (list_parse (build_list mode nlink size mtime name ++ eol))
+  = Some (mkp (anchor dir) (parts dir ++ [name])).
+Proof.
+  intros Em Hm9 Ht Hmode Hnl Hsz Hmt Hc Hn Hlead.
+  rewrite (proj2 (list_name_roundtrip_partial mode nlink size mtime name t m' Em Hm9 Ht Hmode Hnl Hsz Hmt Hc Hn Hlead)).
+  reflexivity.
+Qed.
+
 (* F13: a name with a leading space loses it in the LIST fallback *)
 Definition sp_name : text := [32; 120].                        (* space, x *)
 Theorem list_name_leading_space_refuted :
